@@ -67,6 +67,9 @@ def one(rec, hub, seed, tier, i):
 
 
 def run(rec, hub, tier, seed, shard, nshards, budget):
+    from ..oracles import bystand
+
+    bystand.register(hub, "C03")
     S.register_compute(hub, PROPS)
     rec.require(S.M03B, 10)
     n = 1500 if tier == "quick" else 6000
@@ -82,6 +85,9 @@ def run(rec, hub, tier, seed, shard, nshards, budget):
 
 
 def replay(rec, hub, case):
+    from ..oracles import bystand
+
+    bystand.register(hub, "C03")
     S.register_compute(hub, PROPS)
     rec.set_case(**case)
     one(rec, hub, case["seed"], case.get("tier", "quick"), case["idx"])
